@@ -158,6 +158,39 @@ func c17Run[T constraints.Integer](t *rapid.T, col *ev.Collector, u c17Universe[
 		}
 	}
 
+	// Results are ordinary sets: feed them back into further operations (also
+	// with themselves) and make sure no later operation changes an earlier result.
+	type pooled struct {
+		m    interval.Map[T]
+		want []bool
+		desc string
+	}
+	pool := []pooled{{A, ma, "a"}, {B, mb, "b"}}
+	for i, n := 0, rapid.IntRange(0, 5).Draw(t, "chain"); i < n; i++ {
+		op := ops[rapid.IntRange(0, len(ops)-1).Draw(t, "chainOp")]
+		x := pool[rapid.IntRange(0, len(pool)-1).Draw(t, "chainX")]
+		y := pool[rapid.IntRange(0, len(pool)-1).Draw(t, "chainY")]
+		want := make([]bool, len(x.want))
+		for k := range want {
+			want[k] = op.m(x.want[k], y.want[k])
+		}
+		d := fmt.Sprintf("%s(%s, %s)", op.name, x.desc, y.desc)
+		var R interval.Map[T]
+		if msg := catch(func() { R = op.f(x.m, y.m) }); msg != "" {
+			t.Fatalf("%s with %s: %s", d, desc, msg)
+		}
+		if msg := c17Check(u, R, want); msg != "" {
+			t.Fatalf("%s = %s wrong: %s (%s)", d, c17String(R), msg, desc)
+		}
+		pool = append(pool, pooled{R, want, d})
+		col.Class("chained-operation")
+	}
+	for _, x := range pool {
+		if msg := c17Check(u, x.m, x.want); msg != "" {
+			t.Fatalf("%s changed after later operations: now %s: %s (%s)", x.desc, c17String(x.m), msg, desc)
+		}
+	}
+
 	// classification
 	spans := func(x, y interval.Map[T]) bool {
 		for _, iv := range x.Intervals() {
@@ -203,7 +236,8 @@ func TestC17(t *testing.T) {
 		"(40-point grid incl. 0,1 and 2^64-2,2^64-1 for uint64; 24 points incl. -128 and 127 for int8) so that overlap, "+
 		"adjacency, containment and duplicates are the norm; oracle = boolean membership per elementary segment; "+
 		"NewMap, MapUnion, MapComplement, MapIntersect (both operand orders) must succeed, be in normal form, equal "+
-		"the set operation and leave operands unchanged. non-trivial = both operands non-empty with an interval of "+
+		"the set operation and leave operands unchanged; then up to 5 further operations on a pool of operands and earlier "+
+		"results (a result combined with itself or its operands), every pooled set re-checked at the end. non-trivial = both operands non-empty with an interval of "+
 		"one spanning >=2 of the other, or one operand empty and the other >=2 intervals; distinct by operand lists")
 	defer col.Flush()
 
